@@ -337,21 +337,22 @@ Section Compiler.
           Ok (d, dv, Some {| i_top := Some te; i_files := snd pn; i_result := Some (d, dv) |}))
     end)).
 
-  (* ================================================================ specification *)
-  Definition some_piece (d : dict) : list dict := match d with [] => [] | _ => [d] end.
+  (* ================================================================ specification
+     cache-free; every piece carries the version of the rendered text it was cut from *)
+  Definition some_piece (d : dict) (v : str) : list piece := match d with [] => [] | _ => [(d, v)] end.
 
-  Definition spec_load (p : path) : res (dict * option val * dict) :=
+  Definition spec_load (p : path) : res (dict * option val * dict * str) :=
     bind (wrap_rt (render_path p)) (fun text =>
     bind (wrap_rt (yload text)) (fun data =>
-      match data with VDict d => Ok (split_spec d) | _ => Err TypeError end)).
+      match data with VDict d => Ok (split_spec d, H text) | _ => Err TypeError end)).
 
   (* one file: the data before its include block, then the included files, then the data after *)
-  Definition sfile (rec : list name -> list (res name) -> res (list dict))
-             (parents : list name) (q : name * name * path) : res (list dict) :=
+  Definition sfile (rec : list name -> list (res name) -> res (list piece))
+             (parents : list name) (q : name * name * path) : res (list piece) :=
     match q with (n, rn, p) =>
       if existsb (name_eqb n) parents then Err RuntimeError else
       bind (spec_load p) (fun s =>
-        match s with (b, inc, a) =>
+        match s with ((b, inc, a), v) =>
           bind (match inc with
                 | Some iv =>
                     if truthy iv then
@@ -360,20 +361,20 @@ Section Compiler.
                       rec (parents ++ [n]) (map Ok names)))
                     else Ok []
                 | None => Ok []
-                end) (fun mid => Ok (some_piece b ++ mid ++ some_piece a))
+                end) (fun mid => Ok (some_piece b v ++ mid ++ some_piece a (after_version v)))
         end)
     end.
 
   Section SLoop.
-    Variable one : list name -> name * name * path -> res (list dict).
-    Fixpoint sfile_list (parents : list name) (rs : list (name * name * path)) : res (list dict) :=
+    Variable one : list name -> name * name * path -> res (list piece).
+    Fixpoint sfile_list (parents : list name) (rs : list (name * name * path)) : res (list piece) :=
       match rs with
       | [] => Ok []
       | q :: r => bind (one parents q) (fun x => bind (sfile_list parents r) (fun y => Ok (x ++ y)))
       end.
   End SLoop.
 
-  Fixpoint expand_spec (fuel : nat) (parents : list name) (fl : list (res name)) : res (list dict) :=
+  Fixpoint expand_spec (fuel : nat) (parents : list name) (fl : list (res name)) : res (list piece) :=
     match fuel with
     | O => Err OutOfFuel
     | S f => bind (resolve_all fl) (fun rs => sfile_list (sfile (expand_spec f)) parents rs)
@@ -386,16 +387,19 @@ Section Compiler.
            bind (wrap_rt (yload text)) eval_top)
     end.
 
-  Definition spec_pieces : res (list dict) :=
+  Definition spec_pieces : res (list piece) :=
     bind spec_top (fun fl =>
       match fl with
       | Some (x :: r) => expand_spec (fuel_for t) [[s_topfile]] (map name_of_top_elem (x :: r))
       | _ => Ok []
       end).
 
-  Definition get_data_spec : res dict := bind spec_pieces merge_all.
+  (* data and version a get_data call is specified to return *)
+  Definition get_data_spec : res dict := bind spec_pieces (fun ps => merge_all (map fst ps)).
+  Definition get_full_spec : res (dict * str) :=
+    bind spec_pieces (fun ps => bind (merge_all (map fst ps)) (fun d => Ok (d, aggregate_version H (map snd ps)))).
 
-  (* the situation in which the code raises ValueError although the specification yields {} *)
+  (* the situation in which the code (before ec4c1d7) raised ValueError although the specification yields {} *)
   Definition empty_pieces_case : bool :=
     match spec_top, spec_pieces with
     | Ok (Some (_ :: _)), Ok [] => true
